@@ -9,7 +9,7 @@ import z3
 
 from . import smt
 from .ctx import Ctx, PathEnd, explore
-from .values import ExcVal, FuncVal, PropertyVal, PyvcError, ClassMethodVal, StaticMethodVal, CachedFunc, DispatchVal
+from .values import ExcVal, FuncVal, PropertyVal, PyvcError, ClassMethodVal, StaticMethodVal, CachedFunc, DispatchVal, Unsupported
 from .world import function_source_hash
 
 
@@ -171,10 +171,32 @@ def run_contract_case(I, contract, case, timeout_ms=None, registry=None):
                 out = ("return", r)
             except ExcVal as e:
                 out = ("raise", e)
+            except Unsupported:
+                # an unsupported construct met on a path that is in fact infeasible (the quick feasibility check had
+                # answered unknown) is not an error: decide feasibility with a real budget first
+                s9 = z3.Solver()
+                s9.set("timeout", 10000)
+                for h in list(ctx.hyps()) + smt.theory_facts(list(ctx.hyps())):
+                    s9.add(h)
+                if s9.check() == z3.unsat:
+                    from .ctx import PathEnd
+                    raise PathEnd()
+                raise
             ctx.where = f"{f.module.name}:{f.node.lineno}"
             key = out[0] if out[0] == "return" else "raise " + out[1].cls.name
             res["outcomes"][key] = res["outcomes"].get(key, 0) + 1
-            for name, fm in contract.post(I, ctx, a, out, old):
+            try:
+                clauses = contract.post(I, ctx, a, out, old)
+            except Unsupported:
+                s9 = z3.Solver()
+                s9.set("timeout", 10000)
+                for h in list(ctx.hyps()) + smt.theory_facts(list(ctx.hyps())):
+                    s9.add(h)
+                if s9.check() == z3.unsat:
+                    from .ctx import PathEnd
+                    raise PathEnd()
+                raise
+            for name, fm in clauses:
                 ctx.oblige(f"post.{name}", fm, kind="post")
             return out
 
